@@ -158,20 +158,20 @@ prop(
         "greater than the given one THAT HAS SAMPLES MATCHING THE MASKS whenever such an instance exists. Kani executes the "
         "real DataReaderEntity::next_instance on a symbolic reader (3 instances in any storage order, 2-3 stored samples "
         "with symbolic instance and sample state, symbolic masks, previous handle none or arbitrary) against that oracle; "
-        "the thorough tier additionally runs the mirrored wrapper end to end (real next_instance + real read) on 2 "
+        "the mirrored wrapper is additionally run end to end (real next_instance + real read) on 2 "
         "instances / 1 sample. Open finding KF-C23-1, reported on every run: next_instance looks neither at the masks nor "
         "at the stored samples, so an instance without matching samples (e.g. all taken; InstanceState entries are never "
         "removed) is selected, the inner read answers NoData and the walk stops although a later instance has matching "
         "samples. For the negated trigger the property is proved."),
     bounds="next_instance: 3 instances (handles with 2 symbolic bytes: first and last byte of the 16, i.e. both ends of the "
            "lexicographic order), 2 stored samples (quick) / 3 (thorough), masks any non-empty subset, previous handle none or "
-           "any 2-symbolic-byte handle, unwind 18; end-to-end wrapper (thorough): 2 instances, 1 stored sample, singleton masks, "
-           "max_samples 1, unwind 3",
+           "any 2-symbolic-byte handle, unwind 18; end-to-end wrapper: 2 instances in either storage order, 1 stored sample, the "
+           "singleton masks matching it, max_samples 1, previous handle none, unwind 3 with the collection loops capped at 2",
     outside="more than 3 instances; 'repeated calls visit every instance exactly once' is implied by the single-call statement "
             "(each call returns an instance strictly greater than the previous one) and not executed as a sequence; "
             "take_next_instance end to end (same composition with take; the take path of create_sample_collection is C20); the "
             "DATA_AVAILABLE status bit cleared by the wrapper; reader_methods.rs (deserialisation)",
-    level_text="Bounded model checking with Kani/CBMC of the real next_instance (and, thorough, the mirrored wrapper with the real "
+    level_text="Bounded model checking with Kani/CBMC of the real next_instance (and of the mirrored wrapper with the real "
                "read); reported as level 'other'.",
     level_note="trusted: Kani/CBMC, the oracle in harness/incrate/c23_next_instance.rs, the mirrored wrapper (source guard), C20 for "
                "the inner read. KF-C23-1 is open and reported on every run; " + _STUBS,
